@@ -54,13 +54,14 @@ type Verifier struct {
 
 	globals    map[string]*Cell
 	globalInit map[string]Val
-	allocCount int
 	allocs     []*Term
 
 	siteOrdByKey map[string]int
 	siteCount    map[string]int
 	negRefs      int
 	caseTag      string
+	bigMath      bool
+	leanRefs     map[string]bool
 	curReplay    *ReplayInfo
 	curClauseObj *Clause
 	assumingEnsures int
@@ -158,7 +159,7 @@ func (v *Verifier) addObl(name, kind, desc string, p token.Position, st *State, 
 				}
 				split(sfx, extra, c.Subst(g.Args[0], m), depth+1)
 			}
-		case g.Op == "and" && depth < 12 && len(g.Args) <= 16:
+		case g.Op == "and" && depth < 12 && len(g.Args) <= 64:
 			for i, a := range g.Args {
 				split(fmt.Sprintf("%s.%d", suffix, i), extra, a, depth+1)
 			}
@@ -801,6 +802,12 @@ func (v *Verifier) execLoop(fr *Frame, st *State, node ast.Node, pos token.Pos, 
 			continue
 		}
 		h.heaps[k] = c.Fresh(fmt.Sprintf("H@L%d$%s", ord, k), old.Sort)
+	}
+	// allocations in the body: the watermark at the loop head is unknown but not smaller
+	if log.allocs {
+		old := v.allocMark(st)
+		h.alloc = c.Fresh(fmt.Sprintf("alloc@L%d", ord), IntSort)
+		h.assume(c.ILe(old, h.alloc))
 	}
 	// 4. assume invariants; the function's heap frame is an implicit invariant of every loop
 	fr.scopeAt = loopScope
